@@ -1,3 +1,4 @@
+import Unimock.Generated.Control
 import Unimock.Lemmas.State
 import Unimock.Generated.Counter
 import Unimock.Lemmas.Scan
@@ -308,5 +309,24 @@ theorem C04_source_slot_test (p : Pattern α ρ) (idx : Nat) :
     Generated.ownsSrc p.lo p.hi idx = decide (p.owns idx) := by
   unfold Generated.ownsSrc Pattern.owns
   by_cases h1 : p.lo ≤ idx <;> by_cases h2 : idx < p.hi <;> simp [h1, h2]
+
+/-! ### slot allocation as the source has it (`MockAssembler::new_call_pattern`, re-translated into `Generated.slotAlloc`) -/
+
+/-- only ordered patterns take slots of the global sequence, and an ordered pattern takes exactly its count, starting where
+    the previous one ended; `isExact` is a don't-care for unordered patterns and forced for ordered ones (type-state, C14) -/
+theorem C04_source_slot_allocation (ordered isExact : Bool) (cur n : Nat) (h : ordered = true → isExact = true) :
+    Generated.slotAlloc ordered isExact cur n = if ordered then (cur, cur + n, cur + n) else (0, 0, cur) := by
+  cases ordered <;> cases isExact <;> simp_all [Generated.slotAlloc]
+
+/-- the model's `newPattern` allocates as the source does -/
+theorem C04_source_new_pattern {α ρ} (a : Asm α ρ) (b : Builder α ρ) (h : b.mode = .inOrder → b.ex = .exact) :
+    ((newPattern a b).2.lo, (newPattern a b).2.hi, (newPattern a b).1.cur) =
+      Generated.slotAlloc (decide (b.mode = .inOrder)) (decide (b.ex = .exact)) a.cur (exactCalls b) := by
+  rw [C04_source_slot_allocation _ _ _ _ (by simpa using h)]
+  unfold newPattern
+  by_cases hm : b.mode = .inOrder <;> simp [hm]
+
+/-- non-vacuity: an unordered exactly-once pattern between two ordered ones takes no slot -/
+example : Generated.slotAlloc false true 3 1 = (0, 0, 3) ∧ Generated.slotAlloc true true 3 2 = (3, 5, 5) := by decide
 
 end Unimock
